@@ -79,8 +79,11 @@ class Cmp:
         ref_exc = None
         with warnings.catch_warnings():
             warnings.simplefilter("error", RuntimeWarning)
+            # NumPy semantics of an overflow are "warn and wrap" (integers) / "warn and give inf" (floats): the value
+            # is what the source computes under the interpreter and is compared like any other
+            warnings.filterwarnings("ignore", message="overflow encountered", category=RuntimeWarning)
             try:
-                with np.errstate(over="raise", invalid="ignore", divide="ignore", under="ignore"):
+                with np.errstate(over="warn", invalid="ignore", divide="ignore", under="ignore"):
                     r = interpreted()
             except (FloatingPointError, RuntimeWarning, ValueError, ZeroDivisionError, OverflowError) as e:
                 ref_exc = e
@@ -465,6 +468,112 @@ def generators(thorough):
                     xx = x.astype(dt)
                     C.run(lambda: both_layouts(obj, (xx, w, -9999)), lambda: _out(fi, (xx, w, -9999), (5,), "float32"), f"x={xx.tolist()} {dt} window={w}", rtol=1e-6)
     G["stats.rolling_sum"] = rolling
+
+    # ---- the whole range of each integer input dtype (integer width and promotion differ between the two worlds)
+    def also(name, extra):
+        prev = G[name]
+        G[name] = lambda obj, fi, C: (prev(obj, fi, C), extra(obj, fi, C))
+
+    E16, _ = words(5, 4, [-32768, -25000, 0, 30000, 32767], stride=S)
+    E16b, _ = words(4, 5, [-32768, -3, 2, 32767], stride=3 * S)
+    EU = {"uint8": [0, 3, 200, 255], "uint16": [0, 3, 40000, 65535], "int32": [-2 ** 31, -7, 5, 2 ** 31 - 1]}
+
+    def ac_int_range(obj, fi, C):
+        for x in E16.astype("int16"):
+            C.run(lambda: obj(x, -32768), lambda: fi(x, -32768), f"x={x.tolist()} int16 nodata=-32768")
+        for dt, vals in EU.items():
+            for x in words(4, 4, vals, stride=S)[0].astype(dt):
+                C.run(lambda: obj(x, vals[1]), lambda: fi(x, vals[1]), f"x={x.tolist()} {dt} nodata={vals[1]}")
+    also("autocorr.autocorr_1d_int", ac_int_range)
+
+    def ac_1d_range(obj, fi, C):
+        for x in E16[::7].astype("int16"):
+            C.run(lambda: obj(x, -32768), lambda: fi(x, -32768), f"x={x.tolist()} int16 nodata=-32768")
+    also("autocorr.autocorr_1d", ac_1d_range)
+
+    def ac_cube_range(layout):
+        def run(obj, fi, C):
+            b = E16[::5][:24].astype("int16")
+            cube = b.reshape(4, 6, 4) if layout == "yxt" else np.ascontiguousarray(b.T.reshape(4, 4, 6))
+            C.run(lambda: obj(cube, -32768), lambda: fi(cube, -32768), f"{layout} cube int16 over the whole int16 range", rtol=1e-6)
+        return run
+    also("autocorr.autocorr", ac_cube_range("yxt"))
+    also("autocorr.autocorr_tyx", ac_cube_range("tyx"))
+
+    def mk_range(call):
+        def run(obj, fi, C):
+            for x in E16b.astype("int16"):
+                call(obj, fi, C, x, f"x={x.tolist()} int16 (whole range)")
+        return run
+    for nm in ("mk_score", "mk_variance_s", "mk_sens_slope", "mann_kendall_trend_1d"):
+        also(f"stats.{nm}", mk_range(lambda obj, fi, C, x, d: C.run(lambda: obj(x), lambda: fi(x), d)))
+    also("stats._mann_kendall_trend_gu", mk_range(lambda obj, fi, C, x, d: C.run(lambda: both_layouts(obj, (x,)), lambda: _outs4(fi, (x,)), d, rtol=1e-6)))
+    also("stats._mann_kendall_trend_gu_nd", mk_range(lambda obj, fi, C, x, d: C.run(lambda: both_layouts(obj, (x, -32768.0)), lambda: _outs4(fi, (x, -32768.0)), d, rtol=1e-6)))
+
+    def mk_yxt_range(obj, fi, C):
+        cube = E16b[:24].astype("int16").reshape(4, 6, 5)
+        C.run(lambda: obj(cube), lambda: fi(cube), "cube int16 over the whole int16 range", rtol=1e-6)
+    also("stats.mann_kendall_trend_yxt", mk_yxt_range)
+
+    def red_range(kind):
+        def run(obj, fi, C):
+            for dt, vals in (("int16", [-32768, -3, 2, 32767]), ("int32", EU["int32"]), ("int64", [-2 ** 62, -7, 5, 2 ** 62])):
+                for x in words(4, 4, vals, stride=S)[0].astype(dt):
+                    nd = vals[1]
+                    if kind == "rolling":
+                        for w in (1, 2, 4):
+                            C.run(lambda: both_layouts(obj, (x, w, nd)), lambda: _out(fi, (x, w, nd), (4,), "float32"), f"x={x.tolist()} {dt} window={w} nodata={nd}", rtol=1e-6)
+                    else:
+                        g = np.array([0, 1, 0, 1], dtype="int16")
+                        C.run(lambda: both_layouts(obj, (x, g, 2, nd)), lambda: _out(fi, (x, g, 2, nd), (4,), "float32"), f"x={x.tolist()} {dt} labels=[0,1,0,1] nodata={nd}", rtol=1e-6)
+        return run
+    also("stats.rolling_sum", red_range("rolling"))
+    also("stats.mean_grp", red_range("mean_grp"))
+
+    def zonal_range(obj, fi, C):
+        zr = np.array([[0, 1], [0, 1]], dtype="int16")
+        for dt, vals in (("int16", [-32768, -3, 2, 32767]), ("uint8", EU["uint8"]), ("uint16", EU["uint16"]), ("int32", EU["int32"])):
+            for x in words(4, 4, vals, stride=S)[0].astype(dt):
+                pix = x.reshape(1, 2, 2)
+                for od in (np.float32, np.float64):
+                    C.run(lambda: obj(pix, zr, 2, vals[1], 255, od), lambda: fi(pix, zr, 2, vals[1], 255, od), f"pixels={x.tolist()} {dt} nodata={vals[1]} out={od.__name__}",
+                          rtol=1e-6 if od is np.float32 else 1e-9)
+    also("zonal.do_mean", zonal_range)
+
+    G16, _ = words(4, 5, [-9999, 0, 9, 32767], stride=S)
+
+    def gamma_range(kind):
+        def run(obj, fi, C):
+            for x in G16.astype("int16"):
+                if kind == "fit":
+                    C.run(lambda: obj(x), lambda: fi(x), f"x={x.tolist()} int16 (up to 32767)")
+                elif kind == "std":
+                    C.run(lambda: obj(x, -9999, 0, 5), lambda: fi(x, -9999, 0, 5), f"x={x.tolist()} int16 (up to 32767) cal=[0,5)")
+                else:
+                    g = np.array([0, 0, 0, 0, 0], dtype="int16")
+                    ci = np.array([[0, 5]], dtype="int16")
+                    C.run(lambda: both_layouts(obj, (x, g, 1, -9999, ci)), lambda: _out(fi, (x, g, 1, -9999, ci), (5,), "int16"), f"x={x.tolist()} int16 (up to 32767)")
+        return run
+    also("stats.gammafit", gamma_range("fit"))
+    also("stats.gammastd", gamma_range("std"))
+    also("stats.gammastd_grp", gamma_range("grp"))
+
+    def tint_range(obj, fi, C):
+        tmpl = (1, 0, 1, 1, 0, 1)
+        labels = np.array([3, 3, 4, 4, 5, 5], dtype=np.int32)
+        for x in words(4, 4, [-32768, -3, 2, 32767], stride=S)[0].astype("int16"):
+            t = np.asarray(tmpl, dtype=np.float64)
+            to = np.zeros(3, "u1")
+            C.run(lambda: both_layouts(obj, (x, t, labels, to)), lambda: _out(fi, (x, t, labels, to), (3,), "int16"), f"x={x.tolist()} int16 (whole range) template={list(tmpl)}")
+    also("tinterpolate.tinterpolate", tint_range)
+
+    def plc_range(obj, fi, C):
+        grid = np.round(np.arange(-2, 1.2, 0.2), 10)
+        for x in words(4, 6, [-32768, -20000, 100, 32767], stride=41 * S)[0].astype("int16"):
+            args = (x, -32768.0, 0.9, 0.7)
+            c, i = gu_pair(obj, fi, args, [((6,), "int16"), ((1,), "float64")])
+            C.run(c, i, f"y={x.tolist()} int16 (whole range) nodata=-32768", lam_tie=lambda a, b, same, x=x: same)
+    also("ws2doptvplc.ws2doptvplc", plc_range)
     return G
 
 
